@@ -24,6 +24,9 @@ import (
 type vWorld struct {
 	refs []blob.Ref
 	deps [][]int
+	// metaDeps[i]: blobs whose *index rows* (meta row) blob i needs, the way a delete claim needs
+	// its target to be indexed (populateDeleteClaim: GetBlobMeta, noteNeeded, errMissingDep)
+	metaDeps [][]int
 }
 
 var vW *vWorld
@@ -52,9 +55,28 @@ func vPopulate(ix *Index, ctx context.Context, fetcher *missTrackFetcher, br blo
 			mm.kv["row:"+br.String()+"|"+vW.refs[d].String()] = "dep"
 		}
 	}
+	indexMiss := false
+	if i < len(vW.metaDeps) {
+		for _, d := range vW.metaDeps[i] {
+			if _, err := ix.s.Get("meta:" + vW.refs[d].String()); err != nil {
+				// an index miss: noted by the populate function itself, reported as errMissingDep
+				if nerr := ix.noteNeeded(br, vW.refs[d]); nerr != nil {
+					return nil, nerr
+				}
+				indexMiss = true
+			} else {
+				mm.kv["row:"+br.String()+"|"+vW.refs[d].String()] = "metadep"
+			}
+		}
+	}
 	if missing {
 		mm.kv["have:"+br.String()] = "1"
 		return mm, errMissingDep
+	}
+	if indexMiss {
+		// populateMutationMap: an index miss alone yields the partial map and no error
+		mm.kv["have:"+br.String()] = "1"
+		return mm, nil
 	}
 	mm.kv["have:"+br.String()] = "1|indexed"
 	return mm, nil
@@ -204,6 +226,54 @@ func VK05aOrderIndependence() {
 		}
 	}
 	vrt.Mech(len(ix.readyReindex) == 0 && len(ix.pending) == 0, "nothing is left half-way (readyReindex, pending empty)")
+}
+
+// K05d: index-level dependencies (a delete claim needs its target's rows; a delete of that delete
+// claim needs the claim's rows): a blob that misses such a dependency is committed partially
+// and indexed again when the dependency arrives. All arrival orders, an optional absent blob, an
+// optional restart: the rows equal those of the dependency-order delivery.
+func VK05dMetaDependencies() {
+	vInstall()
+	w := &vWorld{}
+	for i := 0; i < 3; i++ {
+		w.refs = append(w.refs, blob.VerifSmallRef(byte(10+i)))
+	}
+	w.deps = [][]int{nil, nil, nil}
+	w.metaDeps = [][]int{nil, {0}, {1 - vrt.Choice(2)}} // 2 needs 1 (delete of a delete) or 0 (second delete of the target)
+	vW = w
+	absent := vrt.Choice(4)
+	order := vPerm(3)
+	restartAt := vrt.Choice(5)
+	kv, src := &vmodel.KV{}, &vmodel.Store{}
+	ix := vNewIndex(kv, src)
+	for k, i := range order {
+		if k == restartAt {
+			vrt.Quiesce()
+			ix = vNewIndex(kv, src)
+			vrt.Cover("restart")
+		}
+		if i == absent {
+			continue
+		}
+		vDeliver(ix, src, w.refs[i])
+	}
+	vrt.Quiesce()
+	kv2, src2 := &vmodel.KV{}, &vmodel.Store{}
+	ix2 := vNewIndex(kv2, src2)
+	for i := 0; i < 3; i++ {
+		if i != absent {
+			vDeliver(ix2, src2, w.refs[i])
+		}
+	}
+	vrt.Quiesce()
+	vrt.Assert(vSameDump(vDump(kv), vDump(kv2)), "with index-level dependencies the rows depend on the set of blobs only, not on arrival order or restarts")
+	if absent == 3 {
+		for i := range w.refs {
+			have, err := kv.Get("have:" + w.refs[i].String())
+			vrt.Assert(err == nil && have == "1|indexed", "once every blob arrived, every blob is fully indexed (index-level dependencies)")
+		}
+		vrt.Assert(len(ix.needs) == 0 && len(ix.neededBy) == 0, "no pending dependency is left once everything arrived (index-level dependencies)")
+	}
 }
 
 // K05b: a later arrival of the missing blob completes the pending one, also after a restart.
